@@ -621,7 +621,7 @@ def jsonable(case):
 
 def floors(tier):
     return {"df-wellformed": 800, "df-malformed": 800, "geff-wellformed": 150,
-            "geff-malformed": 100, "wellformed-with-id-0": 100,
+            "geff-malformed": 70, "wellformed-with-id-0": 100,
             "mapped-lineage-with-division": 50,
             "df-wellformed-nondefault-index": 200,
             "df-wellformed-columns-with-empty-cells": 100, "df-features-argument": 100,
